@@ -1,3 +1,4 @@
+use crate::e57_reader::MAX_XML_SIZE;
 use crate::error::Converter;
 use crate::paged_writer::PagedWriter;
 use crate::pc_writer::PointCloudWriter;
@@ -135,6 +136,12 @@ impl<T: Write + Read + Seek> E57Writer<T> {
         let xml = transformer(xml)?;
         let xml_bytes = xml.as_bytes();
         let xml_length = xml_bytes.len();
+        // The reader of this library rejects bigger XML sections, the file could not be read back
+        if xml_length > MAX_XML_SIZE {
+            Error::invalid(format!(
+                "XML sections larger than {MAX_XML_SIZE} bytes are not supported"
+            ))?
+        }
         let xml_offset = self.writer.physical_position()?;
         self.writer
             .write_all(xml_bytes)
